@@ -129,14 +129,19 @@ def project_flow(nodes: Any, codes: Codes) -> List[Dict[str, Any]]:
     return out
 
 
+def flow_size(nodes: List[Dict[str, Any]]) -> int:
+    return sum(1 + flow_size(nd["body"]) + flow_size(nd["els"]) for nd in nodes)
+
+
 def observe(flow_abs: List[Dict[str, Any]], real_nodes: Any, codes: Codes, src: str) -> Dict[str, Any]:
     from aas_core_codegen.yielding import linear as yl
 
     try:
         subs = yl.linearize_to_subroutines(flow=real_nodes)
-        return {"flow": flow_abs, "subs": project_subs(subs, codes), "flat": False, "outcome": "ok", "exc": "", "src": src}
+        ps = project_subs(subs, codes)
+        return {"flow": flow_abs, "subs": ps, "flat": False, "outcome": "ok", "exc": "", "src": src, "n": sum(len(x) for x in ps), "size": flow_size(flow_abs)}
     except Exception as ex:  # an observation, not a harness crash
-        return {"flow": flow_abs, "subs": [], "flat": False, "outcome": "exception", "exc": "%s: %s" % (type(ex).__name__, str(ex)[:300]), "src": src}
+        return {"flow": flow_abs, "subs": [], "flat": False, "outcome": "exception", "exc": "%s: %s" % (type(ex).__name__, str(ex)[:300]), "src": src, "n": 0, "size": flow_size(flow_abs)}
 
 
 def main_gen(flows_path: str, out_path: str) -> None:
@@ -168,12 +173,14 @@ def main_capture(out_path: str, scratch: str, models: List[str]) -> None:
     seen = set()
     runs = []
     for i, m in enumerate(models):
-        mp = pathlib.Path(m)
+        # "<model.py>::<snippets dir>" (snippets optional)
+        mtext, _, stext = m.partition("::")
+        mp = pathlib.Path(mtext)
         captured.clear()
-        snip = mp.parent / "snippets"
         sd = pathlib.Path(scratch) / ("c%d" % i)
         sd.mkdir(parents=True, exist_ok=True)
-        if not snip.exists():
+        snip = pathlib.Path(stext) if stext else sd / "snippets"
+        if not stext or not snip.exists():
             snip = sd / "snippets"
             mm.write_snippets(snip, mm.default_snippets("cpp"))
         res = mm.generate(mp, "cpp", snip, sd / "out")
@@ -188,7 +195,7 @@ def main_capture(out_path: str, scratch: str, models: List[str]) -> None:
             if key in seen:
                 continue
             seen.add(key)
-            obs.append(observe(fa, flow, codes, "capture:" + mp.parent.parent.name))
+            obs.append(observe(fa, flow, codes, "capture:" + mp.stem))
     json.dump({"obs": obs, "runs": runs}, open(out_path, "w"))
 
 
